@@ -497,6 +497,7 @@ func c04(run *ev.Run, tier string) {
 	c04Spellings(run)
 	c04DirSpellings(run)
 	c04OddTreeNames(run)
+	c04DeepPaths(run)
 	afterFailedBuilds(run, "C04", func(f string, raw []byte, p *dec.Package) []problem { return structural(f, raw, p, false, true) })
 	c04AcceptedBytes(run)
 	if bin := nfpmBin(run); bin != "" {
@@ -718,6 +719,48 @@ func c04DirSpellings(run *ev.Run) {
 					}
 					if n > 1 {
 						run.Violate("C04/"+f+"/duplicate-member/declared-directory", map[string]any{"directory": dst, "entry_below": below, "members_for_/opt/app": n})
+					}
+				}
+			}
+		}
+	}
+}
+
+// c04DeepPaths: every ancestor of a deeply nested destination is a member and
+// precedes it, however deep the nesting.
+func c04DeepPaths(run *ev.Run) {
+	dir := newWorkDir("c04-deep")
+	defer removeWorkDir(dir)
+	a := filepath.Join(dir, "a.txt")
+	_ = os.WriteFile(a, []byte("a\n"), 0o644)
+	for _, depth := range []int{31, 32, 33, 40, 70} {
+		var parts []string
+		for k := 0; k < depth; k++ {
+			parts = append(parts, fmt.Sprintf("d%d", k))
+		}
+		dst := "/" + strings.Join(parts, "/") + "/leaf.txt"
+		s := &gen.Spec{Name: "deep", Arch: "amd64", Version: "1.0.0", Maintainer: "S <s@example.com>", Description: "d", MTime: 1500000000}
+		s.RPM.BuildHost = "verif-host"
+		s.Contents = []*gen.Content{{Src: a, Dst: dst}, {Type: "symlink", Src: "/nonexistent-verif/t", Dst: "/" + strings.Join(parts, "/") + "/link"}}
+		for _, f := range formats {
+			run.Case(fmt.Sprintf("deep-destination|%d|%s", depth, f), true)
+			res := buildYAML(s.YAML(), f)
+			if res.Err != nil || res.Panic != "" {
+				continue // a format may refuse paths it cannot store
+			}
+			p := dec.Decode(f, res.Bytes, false)
+			for _, x := range structural(f, res.Bytes, p, false, false) {
+				run.Violate("C04/"+f+"/"+x.kind, map[string]any{"destination_depth": depth, "detail": ev.Short(x.detail, 400)})
+			}
+			if f != "rpm" {
+				have := map[string]bool{}
+				for _, e := range p.Entries {
+					have[e.Path] = true
+				}
+				for k := 1; k <= depth; k++ {
+					if anc := "/" + strings.Join(parts[:k], "/"); !have[anc] {
+						run.Violate("C04/"+f+"/ancestor-directory-missing", map[string]any{"destination_depth": depth, "missing": ev.Short(anc, 80), "level": k})
+						break
 					}
 				}
 			}
